@@ -41,12 +41,26 @@ pub const BOUNDARY: &[u64] = &[
     0xffff_ffff_ffff_ffff,
 ];
 
+thread_local! {
+    /// set when a decoder on this thread read past the end of its sequence (generator health: such a case
+    /// continues with zeros, i.e. with the simplest choices)
+    pub static RAN_OUT: std::cell::Cell<bool> = const { std::cell::Cell::new(false) };
+}
+
+/// Reset / read the per-thread "a decoder read past the end of its sequence" flag.
+pub fn take_ran_out() -> bool {
+    RAN_OUT.with(|r| r.replace(false))
+}
+
 impl<'a> Choice<'a> {
     pub fn new(data: &'a [u8]) -> Self {
         Choice { data, pos: 0 }
     }
     #[inline]
     pub fn u8(&mut self) -> u8 {
+        if self.pos >= self.data.len() {
+            RAN_OUT.with(|r| r.set(true));
+        }
         let v = self.data.get(self.pos).copied().unwrap_or(0);
         self.pos = self.pos.saturating_add(1);
         v
